@@ -287,6 +287,9 @@ func (fv *FuncVerifier) def(hint string, t Term) Term {
 	if fv.termMode || fv.specMode > 0 || fv.quantDepth > 0 {
 		return t
 	}
+	if strings.HasPrefix(t.S, "(conv_") {
+		return t // keep conversions syntactic so that string([]byte(s)) cancels
+	}
 	return fv.u.define(hint, t)
 }
 
@@ -311,7 +314,7 @@ func (fv *FuncVerifier) oblige(st *State, kind, label string, goal Term, p token
 	if p.IsValid() {
 		o.Pos = fv.pos(p)
 	}
-	o.SMT = fv.buildQuery(st, not(goal))
+	o.SMT = fv.buildQuery(st, not(fv.skolemizeGoal(goal)))
 	if fv.fd != nil && fv.spec.Kind != SKLemma && fv.entry != nil && (kind == "post" || strings.HasPrefix(kind, "safe:")) {
 		ri := &replayInfo{fv: fv, kind: kind}
 		if kind == "post" {
@@ -337,6 +340,97 @@ func (fv *FuncVerifier) oblige(st *State, kind, label string, goal Term, p token
 		o.replay = ri
 	}
 	fv.obls = append(fv.obls, o)
+}
+
+// skolemizeGoal: a goal (forall (x..) body) is proved for fresh constants x.. (the
+// quantified names are globally unique, so they can be declared as they are). Also
+// descends through a leading implication: (=> A (forall ...)).
+func (fv *FuncVerifier) skolemizeGoal(goal Term) Term {
+	s := goal.S
+	if strings.HasPrefix(s, "(=> ") {
+		// split "(=> A B)"
+		a, rest, ok := splitFirstSexpr(s[4 : len(s)-1])
+		if ok {
+			b := strings.TrimSpace(rest)
+			sk := fv.skolemizeGoal(Term{b, sortBool})
+			if sk.S != b {
+				return Term{"(=> " + a + " " + sk.S + ")", sortBool}
+			}
+		}
+		return goal
+	}
+	if !strings.HasPrefix(s, "(forall (") {
+		return goal
+	}
+	binders, rest, ok := splitFirstSexpr(s[len("(forall ") : len(s)-1])
+	if !ok {
+		return goal
+	}
+	body := strings.TrimSpace(rest)
+	// binders: ((x S) (y T))
+	inner := strings.TrimSpace(binders[1 : len(binders)-1])
+	for inner != "" {
+		b, r, ok := splitFirstSexpr(inner)
+		if !ok {
+			return goal
+		}
+		b = strings.TrimSpace(b[1 : len(b)-1])
+		k := strings.IndexByte(b, ' ')
+		if k < 0 {
+			return goal
+		}
+		name, sortName := b[:k], strings.TrimSpace(b[k+1:])
+		if srt := fv.u.byName[sortName]; srt != nil && srt.Kind == KStruct && !fv.u.declared["sk:"+name] {
+			fv.u.declared["sk:"+name] = true
+			t := fv.u.explodedConst(name+".sk", srt)
+			fv.u.decls = append(fv.u.decls, fmt.Sprintf("(define-fun %s () %s %s)", name, sortName, t.S))
+		} else {
+			fv.u.declare("sk:"+name, fmt.Sprintf("(declare-const %s %s)", name, sortName))
+		}
+		inner = strings.TrimSpace(r)
+	}
+	if strings.HasPrefix(body, "(! ") {
+		// drop a pattern annotation
+		if b2, _, ok := splitFirstSexpr(body[3 : len(body)-1]); ok {
+			body = b2
+		}
+	}
+	return fv.skolemizeGoal(Term{body, sortBool})
+}
+
+// splitFirstSexpr splits off the first s-expression (or atom) of s.
+func splitFirstSexpr(s string) (first, rest string, ok bool) {
+	s = strings.TrimSpace(s)
+	if s == "" {
+		return "", "", false
+	}
+	if s[0] != '(' {
+		k := strings.IndexAny(s, " )")
+		if k < 0 {
+			return s, "", true
+		}
+		return s[:k], s[k:], true
+	}
+	d := 0
+	inStr := false
+	for i := 0; i < len(s); i++ {
+		c := s[i]
+		if c == '"' {
+			inStr = !inStr
+		}
+		if inStr {
+			continue
+		}
+		if c == '(' {
+			d++
+		} else if c == ')' {
+			d--
+			if d == 0 {
+				return s[:i+1], s[i+1:], true
+			}
+		}
+	}
+	return "", "", false
 }
 
 // cover records a satisfiability check (vacuity guard): pc /\ cond must be sat.
